@@ -450,6 +450,7 @@ def h_read_encrypted(size: int, chunk: int, l1: int, l2: int, hash_only1: bool, 
     pre: 1 <= size and 1 <= chunk and 0 <= l1 and 0 <= l2
     pre: l1 <= B.get("nchunks", 2) * chunk and l2 <= B.get("nchunks", 2) * chunk
     pre: B.get("hash_only") is None or hash_only1 == (B["hash_only"] == 1)
+    pre: B.get("first") is None or (l1 <= chunk) == (B["first"] == 1)
     post: _ == True
     """
     # two consecutive read_encrypted calls (the first possibly hash_only); one plaintext segment (see h_segment_hashes)
